@@ -252,9 +252,9 @@ def run_case(case):
         if "INVDISCRETE" in names and _step.mujoco_extra_treatment(mjm, st):
           rec.count("worlds_skew_mujoco313_implicit_extra_treatment")
           continue
-        if "INVDISCRETE" in names and integ == "implicitfast" and any(_step.implicit_hypothesis(mjm, st, h) is not None for h in ("unclamped_ctrl", "muscle_gain_vel")):
+        if "INVDISCRETE" in names and integ == "implicitfast" and any(_step.implicit_hypothesis(mjm, st, h) is not None for h in ("muscle_gain_vel",)):
           # the discrete->continuous conversion uses the same velocity-derivative matrix as the implicitfast step: states
-          # in which the C08 findings implicit:actuator_vel_derivative_* are active are reported by oracle (a), not twice
+          # in which the open C08 finding implicit:actuator_vel_derivative_muscle_gain_missing is active are reported by oracle (a), not twice
           rec.count("inverse_worlds_skipped_known_vel_derivative_mechanism_active")
           continue
 
